@@ -121,7 +121,9 @@ type wWorld struct {
 	timeoutIdx   map[string]wTimeoutInfo                 // bytes signed as MsgSignature -> (view, reported QC block)
 	aggqcs       []hotstuff.AggregateQC                  // aggregate QCs known to the Byzantine coalition
 	timeoutsSeen map[hotstuff.View][]hotstuff.TimeoutMsg
-	crashed      map[NodeID]bool // crashed or silent replicas: send and receive nothing
+	crashed      map[NodeID]bool                        // crashed or silent replicas: send and receive nothing
+	fetchFail    float64                                // probability that a block fetch fails (lost request/reply)
+	fetchDeny    func(req NodeID, h hotstuff.Hash) bool // scripted fetch failures
 }
 
 type wTimeoutInfo struct {
@@ -241,6 +243,12 @@ func (s *wSender) Propose(p *hotstuff.ProposeMsg) {
 }
 
 func (s *wSender) RequestBlock(_ context.Context, h hotstuff.Hash) (*hotstuff.Block, bool) {
+	if s.w.fetchDeny != nil && s.w.fetchDeny(s.node.id, h) {
+		return nil, false
+	}
+	if s.w.fetchFail > 0 && s.w.rng.Float64() < s.w.fetchFail {
+		return nil, false
+	}
 	for _, id := range s.w.order {
 		nd := s.w.nodes[id]
 		if nd.id == s.node.id || !s.connected(nd.id) || s.w.crashed[nd.id] {
@@ -275,6 +283,7 @@ type wSpec struct {
 	dupProb   float64
 	withhold  bool
 	cache     uint
+	fetchFail float64
 }
 
 func newWorld(spec wSpec) (*wWorld, error) {
@@ -284,7 +293,7 @@ func newWorld(spec wSpec) (*wWorld, error) {
 		partition: map[NodeID]int{}, blocks: map[hotstuff.Hash]*hotstuff.Block{},
 		dropProb: spec.dropProb, dupProb: spec.dupProb, withhold: spec.withhold,
 		aggOf: map[hotstuff.Hash]*hotstuff.AggregateQC{}, timeoutIdx: map[string]wTimeoutInfo{},
-		timeoutsSeen: map[hotstuff.View][]hotstuff.TimeoutMsg{}, crashed: map[NodeID]bool{},
+		timeoutsSeen: map[hotstuff.View][]hotstuff.TimeoutMsg{}, crashed: map[NodeID]bool{}, fetchFail: spec.fetchFail,
 	}
 	w.regBlock(hotstuff.GetGenesis())
 	isIn := func(l []hotstuff.ID, x hotstuff.ID) bool {
